@@ -30,6 +30,7 @@ THEOREMS = {
     "MG.Proofs.C11": [
         "MG.C11.routes_agree",
         "MG.C11.routes_same_target",
+        "MG.C11.routes_same_options",
         "MG.C11.canon_sound",
         "MG.C11.table_complete_forms",
         "MG.C11.const_only_raise",
@@ -45,7 +46,10 @@ TABLES = LEAN / "MG" / "Gen" / "Tables.lean"
 
 KINDS = ["mgFunction", "npFunction", "npUfunc", "ufuncOutTensor", "ufuncOutNdarray", "ufuncWhere", "ufuncDtype", "method",
          "operator", "reflectedOperator", "augmentedOperator"]
-FORMS = ["plain", "inplace(a)", "out=Tensor", "out=ndarray", "where=,out=ndarray", "where=,out=Tensor", "dtype="]
+FORMS = ["plain", "inplace(a)", "out=Tensor", "out=ndarray", "where=,out=ndarray", "where=,out=Tensor",
+         "dtype=f32", "dtype=f32,out=ndarray", "dtype=f32,out=Tensor", "dtype=f16", "dtype=f16,out=ndarray", "dtype=f16,out=Tensor"]
+DTYPE_KW = {"f32": np.float32, "f16": np.float16}
+PROBES_F16 = {"T", "T32", "T,T", "T32,T32", "T,A", "T32,S", "T,Tc"}  # operand classes on which the dtype=float16 forms are probed
 
 # ------------------------------------------------------------------------------------------ operands
 
@@ -158,7 +162,12 @@ def ufunc_spellings():
                     mk("out=ndarray", "ufuncOutNdarray", f"{lab}(a,out=o)", lambda o, f=f: f(o[0], out=o[1]), ("oA",))
                     mk("where=,out=ndarray", "ufuncWhere", f"{lab}(a,where=m,out=o)", lambda o, f=f: f(o[0], where=o[2], out=o[1]), ("oA", "m"))
                     mk("where=,out=Tensor", "ufuncWhere", f"{lab}(a,where=m,out=o)", lambda o, f=f: f(o[0], where=o[2], out=o[1]), ("oT", "m"))
-                    mk("dtype=", "ufuncDtype", f"{lab}(a,dtype=f32)", lambda o, f=f: f(o[0], dtype=np.float32))
+                    for dl, D in DTYPE_KW.items():
+                        if dl == "f16" and probe not in PROBES_F16:
+                            continue
+                        mk(f"dtype={dl}", "ufuncDtype", f"{lab}(a,dtype={dl})", lambda o, f=f, D=D: f(o[0], dtype=D))
+                        mk(f"dtype={dl},out=ndarray", "ufuncDtype", f"{lab}(a,dtype={dl},out=o)", lambda o, f=f, D=D: f(o[0], dtype=D, out=o[1]), ("oA",))
+                        mk(f"dtype={dl},out=Tensor", "ufuncDtype", f"{lab}(a,dtype={dl},out=o)", lambda o, f=f, D=D: f(o[0], dtype=D, out=o[1]), ("oT",))
         else:
             probes = PROBES_POW if name == "power" else PROBES_MATMUL if name == "matmul" else PROBES_BIN
             for probe in probes:
@@ -190,7 +199,12 @@ def ufunc_spellings():
                     if has_where:
                         mk("where=,out=ndarray", "ufuncWhere", f"{lab}(a,b,where=m,out=o)", lambda o, f=f: f(o[0], o[1], where=o[3], out=o[2]), ("oA", "m"))
                         mk("where=,out=Tensor", "ufuncWhere", f"{lab}(a,b,where=m,out=o)", lambda o, f=f: f(o[0], o[1], where=o[3], out=o[2]), ("oT", "m"))
-                    mk("dtype=", "ufuncDtype", f"{lab}(a,b,dtype=f32)", lambda o, f=f: f(o[0], o[1], dtype=np.float32))
+                    for dl, D in DTYPE_KW.items():
+                        if dl == "f16" and probe not in PROBES_F16:
+                            continue
+                        mk(f"dtype={dl}", "ufuncDtype", f"{lab}(a,b,dtype={dl})", lambda o, f=f, D=D: f(o[0], o[1], dtype=D))
+                        mk(f"dtype={dl},out=ndarray", "ufuncDtype", f"{lab}(a,b,dtype={dl},out=o)", lambda o, f=f, D=D: f(o[0], o[1], dtype=D, out=o[2]), ("oA",))
+                        mk(f"dtype={dl},out=Tensor", "ufuncDtype", f"{lab}(a,b,dtype={dl},out=o)", lambda o, f=f, D=D: f(o[0], o[1], dtype=D, out=o[2]), ("oT",))
     return out
 
 
@@ -713,7 +727,7 @@ def render_table(routes, missing, reg):
     fns = sorted(set(reg["boolOnly"]) | set(reg["constOnly"]) | set(reg["noDiff"]) | set(reg["family"]))
     ix = lambda l: {v: i for i, v in enumerate(l)}
     OP, PR, SPL, TG, OPT, OTH, FN = ix(ops), ix(probes), ix(spellings), ix(targets), ix(options), ix(others), ix(fns)
-    assert len(probes) < 64 and len(FORMS) < 8
+    assert len(probes) < 128 and len(FORMS) < 16
 
     def arg(a):
         return {"arg": f"Arg.arg {a[1]}", "result": f"Arg.result {a[1]}", "lit": f"Arg.lit ({a[1]})", "other": f"Arg.other {OTH.get(a[1], 0)}"}[a[0]]
@@ -760,6 +774,11 @@ def render_table(routes, missing, reg):
         L.append(f"/-- {nm}: " + ", ".join(reg[nm]) + " -/")
         L.append(f"def {nm} : List Nat := [" + ", ".join(str(FN[f]) for f in reg[nm]) + "]")
     L.append("")
+    L.append("/-- options that only name the target of the write (`@inplace-on=…`, `@out=…`), not an argument of the computation -/")
+    L.append("def markerOptions : List Nat := [" + ", ".join(str(OPT[o]) for o in options if o.startswith("@")) + "]")
+    L.append("/-- family of each form: 0 no extra keyword (plain / augmented / out=), 1 where=, 2 dtype=float32, 3 dtype=float16 -/")
+    L.append("def formFamily : List Nat := [" + ", ".join(str(form_family(f)) for f in FORMS) + "]")
+    L.append("")
     L.append(f"/-- registered `__array_function__` overrides for which the harness has no probe (must be empty) -/")
     names("unprobedOverrides", sorted(missing))
     L.append("")
@@ -791,6 +810,10 @@ def render_table(routes, missing, reg):
     L.append("")
     L.append("end MG.Gen.Tables")
     return "\n".join(L) + "\n"
+
+
+def form_family(form):
+    return 1 if form.startswith("where=") else 2 if form.startswith("dtype=f32") else 3 if form.startswith("dtype=f16") else 0
 
 
 _CACHE = {}
@@ -955,7 +978,52 @@ def check_cross(args):
                     out["fails"].append({"family": plain[0].family, "a": plain[0].ident(), "b": g[0].ident(), "what": k, "seed": seed,
                                          "ref": _short(ref, k), "got": _short(r, k)})
                     break
+        # dtype= : the computation happens in `dtype` whatever the target is, so the value stored through out=<ndarray> /
+        # out=<Tensor> (float64 targets) is exactly the dtype=-only result cast up
+        for dl in DTYPE_KW:
+            g0 = _GROUPS.get((op, probe, f"dtype={dl}"))
+            if not g0:
+                continue
+            ref = execute(g0[0], seed)
+            for form in (f"dtype={dl},out=ndarray", f"dtype={dl},out=Tensor"):
+                g = _GROUPS.get((op, probe, form))
+                if not g:
+                    continue
+                for sp in g:  # the mg and the np spelling
+                    r = execute(sp, seed)
+                    out["evals"] += 1
+                    if ref.get("exc") or r.get("exc"):
+                        if bool(ref.get("exc")) != bool(r.get("exc")) and ref.get("exc") != "UFuncTypeError" and r.get("exc") != "UFuncTypeError":
+                            out["fails"].append({"family": g0[0].family, "a": g0[0].ident(), "b": sp.ident(), "what": "exc", "seed": seed,
+                                                 "ref": _short(ref, "exc"), "got": _short(r, "exc")})
+                        continue
+                    k = _upcast_diff(ref, r)
+                    if k is not None:
+                        out["fails"].append({"family": g0[0].family, "a": g0[0].ident(), "b": sp.ident(), "what": k, "seed": seed,
+                                             "ref": _short(ref, k.split("(")[0]), "got": _short(r, k.split("(")[0])})
     return out
+
+
+def _decode(v):
+    return np.frombuffer(v[2], dtype=v[0]).reshape(v[1])
+
+
+def _upcast_diff(ref, r):
+    """the values differ after casting both to float64 (the gradients are not compared: the seed of a float32 result is
+    rounded to float32, the seed of a float64 target is not)"""
+    if ref.get("shape") != r.get("shape"):
+        return "shape"
+    for k in ("value",):
+        x, y = ref.get(k), r.get(k)
+        if k != "value" and ref.get("constant") != r.get("constant"):
+            continue
+        if (x is None) != (y is None):
+            return k + "(upcast)"
+        if x is None or not isinstance(x, tuple):
+            continue
+        if not np.array_equal(_decode(x).astype(np.float64), _decode(y).astype(np.float64), equal_nan=True):
+            return k + "(upcast)"
+    return None
 
 
 _SCAL_SIG = {"S2": "S=2", "Si2": "S=2", "S1": "S=1", "Si1": "S=1", "S": "S", "Si": "S"}
@@ -1143,7 +1211,11 @@ def replay(data) -> bool:
         print("spelling no longer exists:", f["a"] if not a else f["b"])
         return True
     ra, rb = execute(a[0], f["seed"]), execute(b[0], f["seed"])
-    if a[0].form != b[0].form:
+    if a[0].form != b[0].form and f["what"].endswith("(upcast)"):
+        d = None if (ra.get("exc") or rb.get("exc")) else _upcast_diff(ra, rb)
+    elif a[0].form != b[0].form and f["what"] == "exc":
+        d = "exc" if bool(ra.get("exc")) != bool(rb.get("exc")) else None
+    elif a[0].form != b[0].form:
         k = f["what"]
         bad = (not ra.get("exc") and not rb.get("exc") and ra.get("dtype") == rb.get("dtype") and ra.get(k) != rb.get(k))
         d = k if bad else None
